@@ -610,3 +610,13 @@ PLAN["C16"]["jobs"] = PLAN["C16"]["jobs"] + [I("share", "share:drivers-ir-slice"
 PLAN["C16"]["functions"] = PLAN["C16"]["functions"] + ["the i64 value handed to plain_iteration / vegas_iteration / multi_channel_iteration inside hep::mpi_plain / "
     "mpi_vegas / mpi_multi_channel (backward slice of the clang -O1 -fno-inline IR over loads of rank, world and the call count)"]
 PLAN["C04"]["jobs"] = PLAN["C04"]["jobs"] + [I("share", "share:drivers-ir-slice")]
+
+FP_PLAIN_JOBS = [
+    S("h_iteration@24fp", it(0, N=1, d=2, fk=5), ["iteration.sum_is_sum"]),
+    S("h_iteration@53fp", it(0, N=1, d=1, fk=5), ["iteration.sum_is_sum"]),
+    S("h_iteration@24fp", it(0, N=2, d=1, fk=5), ["iteration.sum_is_sum"], tiers=T, timeout_ms=600000),
+]
+for _p in ("C02", "C06"):
+    PLAN[_p]["jobs"] = PLAN[_p]["jobs"] + FP_PLAIN_JOBS
+    PLAN[_p]["assumptions"] = PLAN[_p]["assumptions"] + ["jobs named @24fp/@53fp: PLAIN iteration in the bit-precise IEEE model (counters, guard against non-finite "
+        "values, sums for N <= 2 where compensated and plain summation coincide bit for bit); algebraic identities are not asserted there"]
